@@ -69,6 +69,12 @@ def _inherited(F, fn, _stack):
                 g = _rewrite_fact(f, mapping)
                 if g is not None:
                     out.add(g)
+            # an argument whose length is known from its construction (a successful `x.get(..16)?`, an array unsized to a slice,
+            # a byte-string constant): the callee may rely on that length
+            for i, a in enumerate(cs.arg_values()):
+                ln = T.length(a.args[0] if a.op == "refval" else a)
+                if ln.op == "const" and isinstance(ln.args[1], int):
+                    out.add(("eq", T.length(T.param(i + 1)), ln.args[1]))
             common = out if common is None else (common & out)
     return tuple(sorted(common or (), key=repr))
 
@@ -333,6 +339,7 @@ class Census:
         pan = analyze_fn(F, parent, inherited_assumptions(F, parent))
         ppv = Prover(pan)
         sites = []
+        comb_sites = []
         for c in pan.calls():
             uses = [x for x in c.args if x.op == "agg" and x.args[0] == "closure" and x.args[1] == cfn["qual"]]
             f0 = c.args[0] if c.args else None
@@ -345,14 +352,30 @@ class Census:
             if direct:
                 sites.append((c, f0))
             elif uses:
+                # handed to a core combinator that runs it at once, in this context, on the payload of its receiver
+                # (`r.map(|x| ..)`, `o.and_then(..)`, `r.map_err(..)`, `o.ok_or_else(..)`): the call site of the combinator is the site
+                dn = c.declared_norm
+                m_ = dn.rsplit("::", 1)[-1]
+                recv = c.arg_values()[0] if c.args else None
+                if (dn.startswith("option::Option::") or dn.startswith("result::Result::")) and recv is not None and len(uses) == 1:
+                    opt_ = dn.startswith("option::")
+                    if m_ in ("map", "and_then", "is_some_and", "is_ok_and", "filter", "inspect"):
+                        pay = T.payload(recv, "Some" if opt_ else "Ok")
+                        comb_sites.append((c, uses[0], [T.refval(pay) if m_ in ("filter", "inspect") else pay]))
+                        continue
+                    if m_ in ("map_err", "or_else", "unwrap_or_else", "ok_or_else", "inspect_err"):
+                        comb_sites.append((c, uses[0], [] if opt_ else [T.payload(recv, "Err")]))
+                        continue
                 return None        # handed to someone else: the context in which it runs is not known
-        if not sites:
+        if not sites and not comb_sites:
             return None
         env_ty = norm(cfn["body"]["locals"][1]["ty"]) if len(cfn["body"]["locals"]) > 1 else ""
-        for c, clo in sites:
+        for c, clo, cargv in [(c_, clo_, None) for c_, clo_ in sites] + comb_sites:
             stc = State(pan.exit_env.get(c.block, {}), c.facts)
             tup = c.args[1] if len(c.args) > 1 else None
             argv = list(tup.args[4]) if tup is not None and tup.op == "agg" and tup.args[0] == "tuple" else []
+            if cargv is not None:
+                argv = cargv
             cargs = [T.refval(clo) if env_ty.startswith("&") else clo] + argv
             cond = prog.subst(pan, stc, a["cond"], cargs)
             ops = [prog.subst(pan, stc, o, cargs) for o in a["ops"]]
@@ -361,7 +384,7 @@ class Census:
             by, _ = self.discharge(pan, ppv, dict(a, cond=cond, ops=ops, facts=c.facts))
             if not by or by == "ALWAYS-FAILS":
                 return None
-        return "holds at each of the %d direct call sites of the closure (captured values substituted)" % len(sites)
+        return "holds at each of the %d call sites of the closure (direct, or through a core combinator that runs it on the spot; captured values substituted)" % (len(sites) + len(comb_sites))
 
     def discharge(self, an, pv, a):
         """(reason, missing-fact text) for one Assert terminator under the facts recorded with it"""
